@@ -381,6 +381,8 @@ def parse_const(s: str) -> Const:
     m = FLOAT_SUFFIX.match(s)
     if m:
         return Const('float', float(m.group(1)), m.group(2))
+    if s.endswith('{{  }}') or s.endswith('{{}}'):
+        return Const('zststruct', None, s[:s.index('{{')].strip())
     if s.startswith('(') or s.startswith('['):
         raise MirUnsupported('aggregate const: ' + s)
     # a named item: path to const / promoted / assoc const / fn item used as value
